@@ -12,8 +12,8 @@ import (
 // Roles in package atp are discovered structurally, not by name (DESIGN §2.2).
 
 type atpRoles struct {
-	clientT  *types.Named // struct with a sync.Mutex and a pending table
-	serverT  *types.Named // struct with a *cbor.Encoder, a sync.Mutex and a closed error channel
+	clientT  *types.Named            // struct with a sync.Mutex and a pending table
+	serverT  *types.Named            // struct with a *cbor.Encoder, a sync.Mutex and a closed error channel
 	mutexOf  map[*types.Named]string // struct -> mutex field name (first sync.Mutex field)
 	pending  string                  // client: map field whose element type carries a sync.Cond
 	sigTable string                  // client: map field of channels
